@@ -2426,3 +2426,26 @@ mod tests {
         assert_eq!(res, Err(OperationError::ResourceLimit));
     }
 }
+
+#[cfg(feature = "verif-hooks")]
+impl Filter<FilterValidResolved> {
+    /// verif hook: wrap an already resolved filter tree without re-resolving or optimising it.
+    pub fn verif_from_resolved(inner: FilterResolved) -> Self {
+        Filter {
+            state: FilterValidResolved { inner },
+        }
+    }
+}
+
+#[cfg(feature = "verif-hooks")]
+impl FilterResolved {
+    /// verif hook: the (private) optimiser.
+    pub fn verif_optimise(&self) -> Self {
+        self.optimise()
+    }
+
+    /// verif hook: the (private) outer-terms-only optimiser.
+    pub fn verif_fast_optimise(self) -> Self {
+        self.fast_optimise()
+    }
+}
